@@ -94,8 +94,22 @@ def e2_run(tier, seed):
     return _e2("C02", kernels(tier), tier, seed, cfgs=("sse2", "scalar"))
 
 
+PRELUDE = r'''
+// the real math shims of /repo, compiled into the harness crate (same source text, not a copy)
+#[path = "/repo/src/f64/math.rs"] pub mod shim64;
+#[path = "/repo/src/f32/math.rs"] pub mod shim32;
+'''
+
+
 def harnesses(tier, cfg):
     hs = []
+    if cfg == "sse2":
+        hs.append(Harness("c02_acos_approx_f64", 'let x = s.f64(); if x >= -2.0 && x <= 2.0 { let r = crate::shim64::acos_approx(x); va!("f64 acos_approx is a number for arguments in [-2, 2] (clamped to [-1, 1])", !r.is_nan() && r >= 0.0 && r <= 3.2); }',
+                          backend="sat", nostubs=True, desc="glam::f64::math::acos_approx (the real shim source, acos as a range/domain model): for every argument in [-2, 2] (a cosine computed with rounding can land slightly outside [-1, 1]) the result is a number in [0, pi], never NaN",
+                          site="f64::acos_approx", cap=300))
+        hs.append(Harness("c02_acos_approx_f32", 'let x = s.f32(); if x >= -2.0 && x <= 2.0 { let r = crate::shim32::acos_approx(x); va!("f32 acos_approx is a number for arguments in [-2, 2]", !r.is_nan() && r >= 0.0 && r <= 3.2); }',
+                          backend="sat", nostubs=True, desc="glam::f32::math::acos_approx (polynomial arccos, real source, exact sqrt): for every argument in [-2, 2] the result is a number in [0, 3.2], never NaN (for huge arguments the polynomial overflows to NaN: outside the property's domain)",
+                          site="f32::acos_approx", cap=300))
     for t in FLOAT_VECS:
         T, N, sc = t.name, t.dim, t.scalar
         ca, a = draw_vec(t, "a")
